@@ -325,6 +325,15 @@ struct CEmitter {
     if (macros)  // pre-processor traffic: object- and function-like macros, a benign identical redefinition, #ifdef / #if / #else, #undef
       r += "#define DSL_MIX(x) ((unsigned long long)(x) * " + std::to_string(RETMUL) + "ULL)\n#define DSL_MIX(x) ((unsigned long long)(x) * " + std::to_string(RETMUL) + "ULL)\n"
            "#define DSL_K 7\n#define DSL_K 7\n#ifdef DSL_K\n#if DSL_K > 3 && defined(DSL_MIX)\n#define DSL_ID(x) (x)\n#else\n#define DSL_ID(x) (0)\n#endif\n#else\n#define DSL_ID(x) (1)\n#endif\n#undef DSL_K\n";
+    bool cdecls = m.geti("cdecls", 0) != 0; std::string mn = m.gets("name");
+    if (cdecls)  // declaration traffic for the C front end: incomplete array type completed by a later definition, repeated tentative
+                 // definitions, struct / union / enum, string concatenation, a static local, by-value struct parameters, recursion
+      r += "extern long long dsl_tab_" + mn + "[];\nlong long dsl_tab_" + mn + "[4] = {1, 2, 3, 4};\nstatic int dsl_tent; static int dsl_tent;\n"
+           "typedef struct dsl_s { int a; long long b; char c[3]; } dsl_t;\ntypedef union { long long q; double d; unsigned char bytes[8]; } dsl_u;\n"
+           "enum dsl_e { DSL_A, DSL_B = 5, DSL_C };\nstatic const char *dsl_str = \"abc\" \"def\";\nstatic long long dsl_fwd(dsl_t s, int n);\n"
+           "static long long dsl_helper(dsl_t s, int n) {\n  static int cnt; dsl_u u; cnt++; u.q = s.b;\n"
+           "  switch (n) { case DSL_A: return s.b; case DSL_B: return dsl_str[n] + (long long) sizeof (dsl_t); default: return s.a + dsl_tab_" + mn + "[n & 3] + u.bytes[0] + dsl_tent + cnt * 0; }\n}\n"
+           "static long long dsl_fwd(dsl_t s, int n) { dsl_t t = s; t.a += n; return n > 0 ? dsl_fwd(t, n - 1) : dsl_helper(t, DSL_C); }\n";
     r += "extern long long ext(long long, long long);\n";
     { bool um = false; for (auto &f : m.at("funcs").a) walk(f.at("body"), [&](const Json &st) { if (st[0].s == "extm") um = true; });
       if (um) r += "extern long long extm(long long, float, long double, int, double, unsigned char, long double, long long, float, short, long long, unsigned int, long long);\n"; }
@@ -339,6 +348,7 @@ struct CEmitter {
     for (auto &f : m.at("funcs").a) {
       fn = &f; depth = 0; out.clear(); auto &fi = all.at(f.gets("name"));
       r += (f.geti("exp", 1) ? "" : "static ") + proto(fi) + " {\n  long long v0 = 0, v1 = 0, v2 = 0, v3 = 0, v4 = 0, v5 = 0; char buf[64];\n  (void) v1; (void) v2; (void) v3; (void) v4; (void) v5; (void) buf;\n";
+      if (cdecls) r += "  { dsl_t s = {1, 2, \"ab\"}; v0 += dsl_fwd(s, 2) * 0; }\n";
       if (f.geti("gv")) r += "  v0 += " + std::to_string((long long) f.geti("gv")) + "LL;\n";
       for (int i = 0; i < fi.nd; i++) r += S("  v0 += (long long) d%d;\n", i);
       if (fi.fuel) { Json seven(7); bool mc = macros; macros = false; out.clear(); depth = 0; ret(seven); macros = mc; r += "  if (!(a0 > 0)) " + out.substr(2); out.clear(); }
